@@ -15,14 +15,19 @@ def exec_lines(path):
     src = open(path).read()
     out = set()
 
-    def walk(co):
-        for _, _, ln in co.co_lines():
-            if ln is not None:
-                out.add(ln)
+    def walk(co, depth_is_func):
+        # module and class bodies run at import (before recording starts) and a function's `def` line carries no LINE
+        # event: only the lines inside function bodies are counted
+        if depth_is_func:
+            for _, _, ln in co.co_lines():
+                if ln is not None and ln != co.co_firstlineno:
+                    out.add(ln)
         for c in co.co_consts:
             if hasattr(c, "co_lines"):
-                walk(c)
-    walk(compile(src, path, "exec"))
+                walk(c, c.co_name not in ("<module>",) and not _is_class_body(c))
+    def _is_class_body(c):
+        return "__qualname__" in c.co_names and "__module__" in c.co_names
+    walk(compile(src, path, "exec"), False)
     return out, src.split("\n")
 
 
